@@ -13,6 +13,9 @@ const (
 	// Frost KeyGen with Threshold.
 	protocolID        = "frost/keygen-threshold"
 	protocolIDTaproot = "frost/keygen-threshold-taproot"
+	// a refresh is a different protocol than a key generation: they must not share a session tag
+	protocolIDRefresh        = "frost/refresh-threshold"
+	protocolIDRefreshTaproot = "frost/refresh-threshold-taproot"
 	// This protocol has 3 concrete rounds.
 	protocolRounds round.Number = 3
 )
@@ -37,6 +40,13 @@ func StartKeygenCommon(taproot bool, group curve.Curve, participants []party.ID,
 			info.ProtocolID = protocolIDTaproot
 		} else {
 			info.ProtocolID = protocolID
+		}
+		if privateShare != nil && publicKey != nil {
+			if taproot {
+				info.ProtocolID = protocolIDRefreshTaproot
+			} else {
+				info.ProtocolID = protocolIDRefresh
+			}
 		}
 
 		helper, err := round.NewSession(info, sessionID, nil)
